@@ -4,8 +4,8 @@
    label value) are arbitrary functions: the theorems hold for every choice. *)
 From Coq Require Import NArith ZArith List Bool String.
 Import ListNotations.
-From Coq Require Import Sorted.
-From Verif Require Import Lib.Corr Lib.Misc_Cmp Gen.C45 Model.C45 Proofs.C45 Proofs.C45_dedup.
+From Coq Require Import Sorted Permutation.
+From Verif Require Import Lib.Corr Lib.Misc_Cmp Gen.C45 Model.C45 Proofs.C45 Proofs.C45_dedup Proofs.C45_sort.
 
 (* With one or more selector sets, a rule's labels pass the filter iff the
    non-templated labels satisfy ALL selectors of AT LEAST ONE set. *)
@@ -75,6 +75,30 @@ Proof.
   split; [apply api_rules_distinct|]. split; [apply api_sound | apply api_complete].
 Qed.
 Print Assumptions C45_dedup_one_per_rule.
+
+(* sort.Slice is not stable and the model uses a stable insertion sort: it does
+   not matter. For well-formed rules, dedupRules gives the same list for EVERY
+   arrangement of the stripped rules that is sorted by Rule.Compare (every correct
+   sorting algorithm), and for every order in which the rules of merged groups
+   were appended. *)
+Theorem C45_dedup_any_sort : forall replica rs sorted,
+  Forall rule_wf rs ->
+  Permutation (map (strip replica) rs) sorted -> StronglySorted (cle rule_cmp) sorted ->
+  dedup_rules replica rs = dedup_sorted sorted.
+Proof. exact dedup_rules_any_sort. Qed.
+Print Assumptions C45_dedup_any_sort.
+
+Theorem C45_dedup_order_independent : forall replica rs1 rs2,
+  Forall rule_wf rs1 -> Permutation rs1 rs2 ->
+  dedup_rules replica rs1 = dedup_rules replica rs2.
+Proof.
+  intros replica rs1 rs2 Hwf Hp.
+  rewrite (dedup_rules_any_sort replica rs1 (isort rule_cmp (map (strip replica) rs2)) Hwf).
+  - reflexivity.
+  - rewrite <- isort_perm. apply Permutation_map. exact Hp.
+  - apply isort_sorted. apply rule_cmp_good.
+Qed.
+Print Assumptions C45_dedup_order_independent.
 
 (* The same through the boolean predicates that the check evaluates on the
    implementation's own output: the model's output satisfies them on every input. *)
